@@ -326,9 +326,9 @@ def run_case(rng, tier, res):
                 yield from absent_token()
             elif r < 0.93:
                 yield from foreign(rng.choice(["in", "in", "out"]))
-            elif r < 0.97:
+            elif r < 0.96:
                 yield from control()
-            elif r < 0.985:
+            elif r < 0.97:
                 frame = (frame + 1) % 2048
                 yield from s.op_sof(frame)
             else:
